@@ -8,7 +8,12 @@ the differ. Over the differ model `Atlas.Diff` and the planner-shape model `Atla
 * `export_shape` — the planned SQL export is, per table, CREATE TABLE followed by one CREATE INDEX
   per index, nothing else;
 * `faithful_both_directions` — if re-creating the export yields the same tables with the same
-  children (in any order), the comparison is empty in both directions.
+  children (in any order), the comparison is empty in both directions;
+* `export_replay_identity` / `export_round_trip` — over an abstract engine (`replay`: each AddTable of
+  the script creates the inspected table of that name), the script exported for any database with
+  distinct table names builds exactly the inspected tables in inspection order, and the comparison
+  with the original is empty in both directions, for schemas of any size (the hypothesis is needed:
+  a counterexample with a duplicated name is proved beside it).
 
 PARTIAL: that inspection recovers every property of the database (pragma + CREATE statement parsing)
 and that the exports, executed / evaluated, yield such a schema is decided on a real engine by the
@@ -52,5 +57,59 @@ theorem faithful_both_directions (s s' : List Table) (hw : WF s) (hw' : WF s')
     exact ⟨b, hb, reordered_symm hr⟩
 
 example : schemaDiff [] [tA, tB] = [.addTable 1, .addTable 2] := by decide
+
+/-- what running the exported script on an empty database builds: every `addTable n` creates the
+inspected table of that name (the CREATE TABLE statement is printed from it); a script holding any
+other change creates nothing for it. -/
+def replay (src : List Table) : List Change → List Table
+  | [] => []
+  | .addTable n :: cs =>
+    (match src.find? (fun t => t.name == n) with | some t => [t] | none => []) ++ replay src cs
+  | _ :: cs => replay src cs
+
+theorem find_of_nodup : ∀ (s : List Table), (s.map Table.name).Nodup → ∀ t ∈ s,
+    s.find? (fun x => x.name == t.name) = some t := by
+  intro s
+  induction s with
+  | nil => intro _ t ht; cases ht
+  | cons a as ih =>
+    intro hn t ht
+    rw [List.map_cons, List.nodup_cons] at hn
+    rcases List.mem_cons.1 ht with rfl | hm
+    · simp
+    · have hne : a.name ≠ t.name := by
+        intro he
+        exact hn.1 (he ▸ List.mem_map_of_mem hm)
+      rw [List.find?_cons_of_neg (by simpa using hne)]
+      exact ih hn.2 t hm
+
+theorem replay_sub (s : List Table) (hn : (s.map Table.name).Nodup) :
+    ∀ sub : List Table, (∀ t ∈ sub, t ∈ s) → replay s (sub.map (fun t => Change.addTable t.name)) = sub := by
+  intro sub
+  induction sub with
+  | nil => intro _; rfl
+  | cons a as ih =>
+    intro h
+    simp only [List.map_cons, replay]
+    rw [find_of_nodup s hn a (h a (List.mem_cons_self)), ih (fun t ht => h t (List.mem_cons_of_mem _ ht))]
+    rfl
+
+/-- **export_replay_identity**: the script exported for any database with distinct table names,
+run on an empty database, builds exactly the inspected tables, in inspection order. -/
+theorem export_replay_identity (s : List Table) (hn : (s.map Table.name).Nodup) :
+    replay s (schemaDiff [] s) = s := by
+  rw [export_creates_all]
+  exact replay_sub s hn s (fun _ h => h)
+
+/-- **export_round_trip**: database -> export -> database -> compare is empty in both directions, any size. -/
+theorem export_round_trip (s : List Table) (hw : WF s) :
+    schemaDiff s (replay s (schemaDiff [] s)) = [] ∧ schemaDiff (replay s (schemaDiff [] s)) s = [] := by
+  rw [export_replay_identity s hw.names]
+  exact ⟨diff_self s hw, diff_self s hw⟩
+
+/-- the hypothesis is needed: with two tables of one name the script creates the first twice. -/
+example : replay [tA, { tB with name := 1 }] (schemaDiff [] [tA, { tB with name := 1 }]) ≠ [tA, { tB with name := 1 }] := by decide
+
+example : replay [tA, tB] (schemaDiff [] [tA, tB]) = [tA, tB] := by decide
 
 end Props.C03
